@@ -309,6 +309,62 @@ func vfC18Run(run *vfkit.Run, cs *vfC18Case) {
 		if afterResume {
 			run.Count("half_open_losses_detected_after_resume", 1)
 		}
+	case "ends-during-ping":
+		// The session ends (the stream becomes unreadable; the socket stays open and writable) at a moment when the
+		// keepalive is in the middle of a ping. Once that ping returns, the loop must notice that its session is over.
+		sendGarbage, hold := make(chan struct{}), make(chan struct{})
+		peer := vfNewPeer(func(pc *vfPeerConn) {
+			if _, err := pc.Negotiate(&vfNeg{Bind: true, ExpectPresence: true}); err != nil {
+				return
+			}
+			go func() {
+				for {
+					if _, err := pc.Next(); err != nil {
+						return
+					}
+				}
+			}()
+			<-sendGarbage
+			pc.Send("<<<not xml any more")
+			<-hold
+		})
+		defer peer.Stop()
+		defer close(hold)
+		c, obs, err := vfNewClient(vfClientOpt{Addr: peer.Addr(), Insecure: true, Keepalive: iv}, nil)
+		if err != nil {
+			run.Inconclusive("newclient")
+			return
+		}
+		hp := &vfHeldPing{Transport: c.transport, inPing: make(chan struct{}), release: make(chan struct{})}
+		c.transport = hp
+		if err := c.Connect(); err != nil {
+			run.Inconclusive("connect")
+			return
+		}
+		defer func() { go c.Disconnect() }()
+		atomic.StoreInt32(&hp.armed, 1)
+		select {
+		case <-hp.inPing:
+		case <-time.After(20 * time.Second):
+			run.Inconclusive("no-ping-to-hold")
+			return
+		}
+		close(sendGarbage)
+		ended := vfWaitUntil(15*time.Second, func() bool { return obs.CountState(StateDisconnected) >= 1 && !vfClientHasRecv(c) })
+		before := atomic.LoadInt32(&hp.pings)
+		close(hp.release)
+		if !ended {
+			run.Inconclusive("session-did-not-end")
+			return
+		}
+		// count what follows: a tick that was already pending may still fire once or twice; a loop that missed the end of
+		// its session goes on for ever (10 further pings decide; fewer within a second under load decide nothing)
+		vfWaitUntil(time.Duration(40)*iv+time.Second, func() bool { return atomic.LoadInt32(&hp.pings)-before >= 10 })
+		if n := atomic.LoadInt32(&hp.pings) - before; n > 3 {
+			run.Violation("C18/keepalive-survives-its-session:ended-during-ping", fmt.Sprintf("the session ended while a ping was in flight (interval %v); after that ping returned the loop sent %d more keepalives", iv, n), cs)
+			return
+		}
+		run.Count("sessions_ended_during_a_ping", 1)
 	case "one-keepalive":
 		// K losses, each followed at once by a Resume from inside the Disconnected handler, with an interval so short
 		// that the keepalive is busy pinging most of the time when its session ends. Afterwards the session is up and
@@ -330,6 +386,13 @@ func vfC18Run(run *vfkit.Run, cs *vfC18Case) {
 			}()
 			if pc.N < cs.K {
 				time.Sleep(3 * time.Millisecond)
+				if pc.N%2 == 1 || pc.N >= cs.K-8 {
+					// every other session, and the last eight, end because the stream becomes unreadable, not because the connection goes
+					// away: the socket stays open (and writable) for a while - nothing but the end of the session stops
+					// that session's keepalive
+					pc.Send("<<<not xml any more")
+					time.Sleep(60 * time.Millisecond)
+				}
 				pc.Close()
 				return
 			}
@@ -567,6 +630,7 @@ func TestVf_C18(t *testing.T) {
 		cases = append(cases, &vfC18Case{Mode: "half-open", Interval: []int{5000, 10000, 20000, 40000}[i%4], K: 4})
 		cases = append(cases, &vfC18Case{Mode: "half-open", Interval: []int{10000, 20000, 40000, 5000}[i%4], K: 4, Variant: "after-resume"})
 		cases = append(cases, &vfC18Case{Mode: "one-keepalive", Interval: []int{50, 100, 200, 20}[i%4], K: 25})
+		cases = append(cases, &vfC18Case{Mode: "ends-during-ping", Interval: []int{2000, 5000, 1000, 10000}[i%4], K: 1})
 	}
 	run.Exhaustive(true)
 	var wg sync.WaitGroup
@@ -588,6 +652,29 @@ func TestVf_C18(t *testing.T) {
 	if run.NViolations() > 0 {
 		t.Fail()
 	}
+}
+
+// vfHeldPing is the client's real transport with one ping held in flight.
+type vfHeldPing struct {
+	Transport
+	armed   int32
+	pings   int32
+	once    sync.Once
+	inPing  chan struct{}
+	release chan struct{}
+}
+
+func (h *vfHeldPing) Ping() error {
+	atomic.AddInt32(&h.pings, 1)
+	if atomic.LoadInt32(&h.armed) == 1 {
+		held := false
+		h.once.Do(func() { held = true })
+		if held {
+			close(h.inPing)
+			<-h.release
+		}
+	}
+	return h.Transport.Ping()
 }
 
 func vfLastN(x []string, n int) []string {
